@@ -7,6 +7,7 @@ import (
 	"pgregory.net/rapid"
 
 	"verif/harness/core"
+	"verif/harness/gen"
 	"verif/harness/model"
 	"verif/harness/script"
 )
@@ -206,6 +207,10 @@ var kinds = []string{"large-message-between", "plain", "reparse-before-execute",
 func genCase(t *rapid.T) Case {
 	c := Case{NConn: rapid.SampledFrom([]int{1, 1, 2, 2, 3}).Draw(t, "nconn")}
 	c.OptSeed = rapid.IntRange(0, 1000).Draw(t, "option-order")
+	stmtNames, portalNames = []string{"", "a", "b"}, []string{"", "p", "q"}
+	if fam, pool := gen.Names(t); fam != "plain" {
+		c.NameFamily, stmtNames, portalNames = fam, pool, pool
+	}
 	c.CustomCaches = rapid.IntRange(0, 3).Draw(t, "custom-caches") == 2
 	tb := Table(c.NConn)
 	bs := make([]*builder, c.NConn)
